@@ -156,7 +156,8 @@ def main():
                     problems.append("no rendered diagnostic")
                 if color == "never" and b"\x1b[" in out:
                     problems.append("ANSI escapes despite --color=never")
-                if arrows == "ascii" and color == "never" and inp != "invalid-uni" and any(b > 127 for b in out):
+                # (with --verbose the stage dumps print the rebuilt source behind a `¦` gutter: not part of the diagnostics)
+                if arrows == "ascii" and color == "never" and inp != "invalid-uni" and not verbose and any(b > 127 for b in out):
                     problems.append("non-ASCII arrows despite --arrows=ascii")
             elif re.search(rb"\[E\d+\]", out):
                 problems.append("diagnostics although --silent")
